@@ -226,9 +226,9 @@ func genChain(r *hx.Rng, root *actionlint.ObjectType) (src string, coq string) {
 }
 
 var errClasses = []struct {
-	prefix string
+	prefix   string
 	contains string
-	class  int
+	class    int
 }{
 	{"undefined variable", "", 1},
 	{"property ", "as element of filtered array", 4},
